@@ -339,7 +339,7 @@ func runC06(ctx *core.Ctx, pool *par.Pool) {
 		cfgs = append(cfgs, QCfgSpec{File: "E", Buffer: 6})
 		ctx.SetBudget(28 * time.Minute)
 	}
-	full := ctx.Deadline
+	share := ctx.Budget() * 8 / 10 / time.Duration(len(cfgs))
 	var total xstate.Stats
 	images, distinct, nontrivial, boundaries, tested, capped := 0, 0, 0, 0, 0, 0
 	outcomes := map[string]int{}
@@ -347,7 +347,8 @@ func runC06(ctx *core.Ctx, pool *par.Pool) {
 		c := c
 		qc, _ := c.cfg()
 		var cands [][]Q
-		ctx.Deadline = ctx.Start.Add(full.Sub(ctx.Start) / 3)
+		endRun := ctx.Phase(share)
+		endBFS := ctx.Phase(share * 3 / 10)
 		st := qBFS(ctx, pool, c, queueAlphabet(qc.File.PageSize, true), depth, false, func(string) bool { return false }, func(from *QNode, s *QSucc, isNew bool) {
 			switch s.Op.K {
 			case queuedrv.QWrite, queuedrv.QFlush, queuedrv.QAck, queuedrv.QReopen:
@@ -356,7 +357,7 @@ func runC06(ctx *core.Ctx, pool *par.Pool) {
 				}
 			}
 		})
-		ctx.Deadline = full
+		endBFS()
 		total.States += st.States
 		total.Transitions += st.Transitions
 		// I/O shapes of the candidates
@@ -434,6 +435,7 @@ func runC06(ctx *core.Ctx, pool *par.Pool) {
 		if skipped > 0 {
 			ctx.Cap("queue %s: deadline reached, %d of %d I/O shapes not crash-tested", c, skipped, len(tasks))
 		}
+		endRun()
 	}
 	// transient I/O failures during flush/ACK/close, then retry: nothing accepted may be lost or duplicated
 	fp, fe := runQFaultPass(ctx, pool, []QCfgSpec{{File: "C", Buffer: 5}, {File: "A", Buffer: 5}})
